@@ -1,9 +1,12 @@
 (* C14 — No input crashes, wedges or confuses an instance.
    Property theorems only: statement, exact, Print Assumptions.  Proofs: proofs/C14P.v.
    Model: model/Inputs.v (every Rust unwrap / index of the mirrored code is the explicit outcome
-   OPanic).  Partial: a Gallina model cannot exhibit a panic or a dead thread of code it does not
-   mirror; that part of the property is observed by the correspondence harness (panic hook,
-   probe after every input), not proved — see C14_full. *)
+   OPanic), at the current commit: the classes 1-4 found by this check (null on a nullable Json
+   field, empty verifying key, keyword / digit-first aliases, unclosed Ifnull) were repaired by
+   8ac9d00, b4e6381, 601cdc3 and their theorems hold at full strength; classes 5-7 stay open.
+   Partial: a Gallina model cannot exhibit a panic or a dead thread of code it does not mirror;
+   that part of the property is observed by the correspondence harness (panic hook, probe after
+   every input), not proved — see C14_full. *)
 From DV Require Import Run_C14 C14P.
 From Coq Require Import String.
 Local Open Scope string_scope.
@@ -18,9 +21,10 @@ Definition C14_full (observe : c14case -> list Z) : Prop :=
   forall c, spec_C14 c (observe c) = true.
 
 (* (0) master statement about the functions the harness evaluates: on every input outside the
-   listed finding classes, what the model says the implementation observes satisfies the
-   property's oracle — no panic code, every probe answered, every valid request Ok, parentheses
-   paired and SELECTs linear in the request.  All case kinds, sequences of any length. *)
+   open finding classes (5 blank search text, 6 parser stack, 7 nested non-nullable references),
+   what the model says the implementation observes satisfies the property's oracle — no panic
+   code, every probe answered, every valid request Ok, parentheses paired and SELECTs linear in
+   the request.  All case kinds, sequences of any length. *)
 Theorem C14_model_holds_outside_known_partial : forall c,
   known_C14 c = [] -> spec_C14 c (run_C14 c) = true.
 Proof. exact run_spec_outside_known. Qed.
@@ -35,95 +39,98 @@ Theorem C14_params_bound_after_validation : forall vs ps ps',
 Proof. exact validate_params_binds. Qed.
 Print Assumptions C14_params_bound_after_validation.
 
-(* ... and no unwrap of mutation_query.rs is reached by any mutation (any number of fields,
-   variables, literals, defaults, id / room_id), except: null on a nullable Json field *)
-Theorem C14_params_total_outside_known : forall m, mutate_outcome m = OPanic -> k1_mutation m = true.
-Proof. exact mutate_panics_only_in_k1. Qed.
-Print Assumptions C14_params_total_outside_known.
-
-Theorem C14_params_total_refuted :
-  mutation_valid k1_witness = true /\ mutate_outcome k1_witness = OPanic /\
-  mutation_valid k1_literal_witness = true /\ mutate_outcome k1_literal_witness = OPanic.
-Proof. exact params_total_refuted_w. Qed.
-Print Assumptions C14_params_total_refuted.
+(* ... and no unwrap of mutation_query.rs is reached by any mutation: any number of fields,
+   variables, literals, defaults, id / room_id, any parameters *)
+Theorem C14_params_total_holds : forall m, mutate_outcome m <> OPanic.
+Proof. exact mutate_never_panics. Qed.
+Print Assumptions C14_params_total_holds.
 
 (* a valid mutation executes *)
-Theorem C14_valid_mutation_executes_partial : forall m,
-  mutation_valid m = true -> k1_mutation m = false -> mutate_outcome m = OOk.
+Theorem C14_valid_mutation_executes_holds : forall m,
+  mutation_valid m = true -> mutate_outcome m = OOk.
 Proof. exact valid_mutation_executes. Qed.
-Print Assumptions C14_valid_mutation_executes_partial.
+Print Assumptions C14_valid_mutation_executes_holds.
 
-(* (2) the pool of reader threads: any sequence of mutations outside class 1 leaves all threads
-   alive and every probe is answered; four requests of class 1 leave none *)
-Theorem C14_sequences_keep_the_pool_partial : forall ms, existsb k1_mutation ms = false ->
+(* (2) the pools of reader and verifier threads: ANY sequence of mutations / rows leaves all
+   threads alive and every probe is answered *)
+Theorem C14_sequences_keep_the_pool_holds_partial : forall ms,
   steps_ok (map mutation_valid ms) (pool_run default_parallelism (map mutate_outcome ms)) = true /\
   pool_live default_parallelism (map mutate_outcome ms) = default_parallelism.
 Proof. exact sequences_keep_the_pool. Qed.
-Print Assumptions C14_sequences_keep_the_pool_partial.
+Print Assumptions C14_sequences_keep_the_pool_holds_partial.
 
+Theorem C14_verifier_pool_kept_holds_partial : forall rs,
+  steps_ok (map (fun _ => false) rs) (pool_run default_parallelism (map verify_row rs)) = true /\
+  pool_live default_parallelism (map verify_row rs) = default_parallelism.
+Proof. exact verifier_pool_kept. Qed.
+Print Assumptions C14_verifier_pool_kept_holds_partial.
+
+(* why that matters (bookkeeping of the pool): n panicking requests on n threads leave none *)
 Theorem C14_panics_exhaust_the_pool : forall os live,
   Forall (fun o => o = OPanic) os -> (live <= N.of_nat (List.length os))%N -> pool_live live os = 0%N.
 Proof. exact panics_exhaust_the_pool. Qed.
 Print Assumptions C14_panics_exhaust_the_pool.
 
-Theorem C14_instance_wedged_refuted :
-  run_C14 (CMutSeq [k1_witness; k1_witness; k1_witness; k1_witness; ok_witness]) = [2; 1; 2; 1; 2; 1; 2; 0; 1; 0]
-  /\ mutation_valid ok_witness = true.
-Proof. exact pool_exhausted_w. Qed.
-Print Assumptions C14_instance_wedged_refuted.
+(* (3) key import and row verification: the order of checks of the code is safe for every key *)
+Theorem C14_key_import_total_holds : forall k pok, import_key k pok <> OPanic.
+Proof. exact import_key_never_panics. Qed.
+Print Assumptions C14_key_import_total_holds.
 
-(* (3) key import and row verification: the order of checks of the code is safe except for the
-   empty key, which is indexed before its length is looked at *)
-Theorem C14_key_import_total_iff : forall k pok, import_key k pok = OPanic <-> k = [].
-Proof. exact import_key_panics_iff. Qed.
-Print Assumptions C14_key_import_total_iff.
-
-Theorem C14_verify_total_outside_known : forall r, verify_row r = OPanic -> k2_row r = true.
-Proof. exact verify_row_panics_only_in_k2. Qed.
-Print Assumptions C14_verify_total_outside_known.
+Theorem C14_verify_total_holds : forall r, verify_row r <> OPanic.
+Proof. exact verify_row_never_panics. Qed.
+Print Assumptions C14_verify_total_holds.
 
 (* (4) valid_executes: a request that is valid for the language and the data model resolves, and
-   the statement skeleton compiled for it has balanced parentheses and only legal, non-reserved
-   unquoted aliases — unless an identifier is an SQL keyword / digit-first (class 3) or a json
-   selector meets a default (class 4).  Partial: that the engine accepts exactly such statements
-   (and the calibrated parser-stack budget, blank search text) is tied by the differential runs *)
+   the statement skeleton compiled for ANY resolved selection has balanced parentheses (aliases
+   are spliced double-quoted, so their spelling no longer matters).  Partial: that the engine
+   accepts exactly such statements is tied by the differential runs *)
 Theorem C14_valid_query_resolves : forall dm q, entity_valid dm q = true -> exists c, resolve_entity dm q = Some c.
 Proof. exact entity_valid_resolves. Qed.
 Print Assumptions C14_valid_query_resolves.
 
-Theorem C14_valid_executes_partial : forall c,
-  k3_entity c = false -> k4_entity c = false -> wf_sql (emit_entity c) = true.
+Theorem C14_valid_executes_holds_partial : forall c, wf_sql (emit_entity c) = true.
 Proof. exact entity_wf. Qed.
-Print Assumptions C14_valid_executes_partial.
+Print Assumptions C14_valid_executes_holds_partial.
 
-Theorem C14_valid_query_executes_partial : forall dm qs,
+(* the whole verdict: valid and outside the open classes 5 / 6 => Ok *)
+Theorem C14_valid_query_executes_outside_known_partial : forall dm qs,
   query_valid dm qs = true -> known_C14 (CQuery dm qs) = [] -> query_outcome dm qs = OOk.
 Proof. exact valid_query_executes. Qed.
-Print Assumptions C14_valid_query_executes_partial.
+Print Assumptions C14_valid_query_executes_outside_known_partial.
 
-Theorem C14_valid_executes_refuted :
+Theorem C14_valid_query_executes_refuted :
   let name := RNamed None (cp "name") in
-  (query_valid w_dm [w_q (Some (cp "group")) None [name]] = true /\ query_outcome w_dm [w_q (Some (cp "group")) None [name]] = OErr) /\
-  (query_valid w_dm [w_q None None [RSub None (cp "order") [name]]] = true /\ query_outcome w_dm [w_q None None [RSub None (cp "order") [name]]] = OErr) /\
-  (query_valid w_dm [w_q (Some (cp "1a")) None [name]] = true /\ query_outcome w_dm [w_q (Some (cp "1a")) None [name]] = OErr) /\
-  (query_valid w_dm [w_q None None [RJson (cp "a") (cp "jd")]] = true /\ query_outcome w_dm [w_q None None [RJson (cp "a") (cp "jd")]] = OErr) /\
   (query_valid w_dm [w_q None (Some []) [name]] = true /\ query_outcome w_dm [w_q None (Some []) [name]] = OErr) /\
   (query_valid w_dm [w_tree [w_chain (cp "kids") 5]] = true /\ query_outcome w_dm [w_tree [w_chain (cp "kids") 5]] = OErr) /\
   query_outcome w_dm [w_q (Some (cp "grp")) (Some (cp "word")) [name; RSub (Some (cp "o")) (cp "order") [name]]] = OOk /\
   query_outcome w_dm [w_tree [w_chain (cp "kids") 4]] = OOk.
 Proof. exact valid_executes_refuted_w. Qed.
-Print Assumptions C14_valid_executes_refuted.
+Print Assumptions C14_valid_query_executes_refuted.
+
+(* the witnesses of the repaired classes 1-4 are ordinary cases now: Ok, pool intact, Err for the
+   empty key, keyword / digit-first aliases and the defaulted json selector execute *)
+Theorem C14_repaired_witnesses_pass :
+  let name := RNamed None (cp "name") in
+  run_C14 (CMut k1_witness) = [0; 1] /\ run_C14 (CMut k1_literal_witness) = [0; 1] /\
+  run_C14 (CMutSeq [k1_witness; k1_witness; k1_witness; k1_witness; ok_witness]) = [0; 1; 0; 1; 0; 1; 0; 1; 0; 1] /\
+  run_C14 (CKey [] false) = [1] /\ run_C14 (CRow (RowNode false JObject [] false 64 false)) = [1] /\
+  run_C14 (CQuery w_dm [w_q (Some (cp "group")) None [name]]) = [0; 1] /\
+  run_C14 (CQuery w_dm [w_q None None [RSub None (cp "order") [name]]]) = [0; 1] /\
+  run_C14 (CQuery w_dm [w_q (Some (cp "1a")) None [name]]) = [0; 1] /\
+  run_C14 (CQuery w_dm [w_q None None [RJson (cp "a") (cp "jd")]]) = [0; 1].
+Proof. exact repaired_witnesses_w. Qed.
+Print Assumptions C14_repaired_witnesses_pass.
 
 (* (5) statement size: the counters the harness compares with the real compiler's output are
-   the counters of the modelled token list; they are linear in the request unless non-nullable
-   references are nested (class 7), where they double per level *)
+   the counters of the modelled token list; parentheses always pair up; SELECTs are linear in the
+   request unless non-nullable references are nested (class 7), where they double per level *)
 Theorem C14_counts_are_token_counts : forall c, cnt3 (emit_entity c) = counts_entity c.
 Proof. exact counts_entity_are_token_counts. Qed.
 Print Assumptions C14_counts_are_token_counts.
 
 Theorem C14_statement_size_outside_known : forall dm q ce,
   resolve_entity dm q = Some ce ->
-  (k4_entity ce = false -> lp3 (counts_entity ce) = rp3 (counts_entity ce)) /\
+  lp3 (counts_entity ce) = rp3 (counts_entity ce) /\
   (k7_entity ce = false -> (sel3 (counts_entity ce) <= select_bound q)%N).
 Proof. exact size_spec. Qed.
 Print Assumptions C14_statement_size_outside_known.
@@ -140,12 +147,10 @@ Proof. exact size_refuted_w. Qed.
 Print Assumptions C14_statement_size_refuted_witness.
 
 Example C14_nonvacuous :
-  known_C14 (CMut ok_witness) = [] /\ run_C14 (CMut ok_witness) = [0; 1] /\
-  known_C14 (CMutSeq [ok_witness; ok_witness]) = [] /\
-  known_C14 (CKey [1%N] true) = [] /\ run_C14 (CKey [1%N] true) = [1] /\
-  known_C14 (CRow (RowNode false JObject [1%N; 2%N] false 64 false)) = [] /\
   known_C14 (CQuery w_dm [w_q (Some (cp "grp")) None [RNamed None (cp "name"); RSub None (cp "pets") [RNamed None (cp "name")]]]) = [] /\
   query_valid w_dm [w_q (Some (cp "grp")) None [RNamed None (cp "name"); RSub None (cp "pets") [RNamed None (cp "name")]]] = true /\
+  run_C14 (CMut ok_witness) = [0; 1] /\ mutation_valid ok_witness = true /\ mutation_valid k1_witness = true /\
+  run_C14 (CKey [1%N] true) = [1] /\
   known_C14 (CQSize w_dm (w_tree [w_chain (cp "nn") 1])) = [] /\
   run_C14 (CQSize w_dm (w_tree [w_chain (cp "nn") 1])) = [1; 5; 9; 9].
 Proof. exact nonvacuous_w. Qed.
